@@ -2,7 +2,7 @@
    non-vacuity Example per theorem. *)
 From stdpp Require Import gmap.
 From Coq Require Import NArith List Bool Permutation Lia.
-From GoProbe.C11 Require Import Model Corr ProofsA ProofsB ProofsC ProofsD.
+From GoProbe.C11 Require Import Model Corr ProofsA ProofsB ProofsC ProofsD ModelK ProofsK ProofsK2.
 Import ListNotations.
 
 (* For EVERY run of the work queue (every assignment of workloads to workers, every interleaving,
@@ -66,6 +66,33 @@ Theorem c11_model_run_sound : forall capf P lowmem mask (days : list day) sched 
 Proof. exact run_model_sound. Qed.
 Print Assumptions c11_model_run_sound.
 
+(* ---- keepalives enabled (ModelK.v): the callback run by a worker under the Query mutex takes the
+   read lock of finalStats (k_nest times, nested), the aggregator's Add takes its write lock; RWMutex
+   semantics (a waiting writer blocks new readers). B = number of callbacks still to come. *)
+
+(* results are untouched by the keepalive machinery: every complete run ends with the same map *)
+Theorem c11_keepalive_result : forall (k : kcfg) (days : list day) (B : nat) (s : kst),
+  1 <= c_P (k_c k) -> ksteps k (wqk_init days B) s -> kfinal s ->
+  acc (base s) = fold_left merge_map (map (eval_workload (c_mask (k_c k))) (create_worker_jobs days)) ∅.
+Proof. exact ka_result. Qed.
+Print Assumptions c11_keepalive_result.
+
+(* the code as it is (one read lock per callback): the final state is inevitable for every P >= 1,
+   every number of day directories, every number of keepalive callbacks, every interleaving *)
+Theorem c11_keepalive_terminates : forall P lowmem mask (days : list day) (B : nat), 1 <= P ->
+  kinevitably_final (wqk_cfg P lowmem mask days 1) (wqk_init days B).
+Proof. exact ka_terminates. Qed.
+Print Assumptions c11_keepalive_terminates.
+
+(* ... and this depends on the read lock NOT being taken again inside the callback: with a nested
+   read lock (k_nest = 2), two workloads, one worker and one callback a reachable state is stuck *)
+Theorem c11_keepalive_nested_rlock_refuted : forall (c : cfg) (w1 w2 : workload) (B : nat),
+  c_P c = 1 -> 2 <= c_cap c -> 1 <= c_mcap c ->
+  exists s, ksteps {| k_c := c; k_nest := 2 |} (kinit [w1; w2] (S B)) s
+            /\ kstuck {| k_c := c; k_nest := 2 |} s /\ ~ kfinal s.
+Proof. exact nested_refuted. Qed.
+Print Assumptions c11_keepalive_nested_rlock_refuted.
+
 (* ------------------------------------------------------------------ non-vacuity *)
 
 Definition ex_flow1 : flow := (0, 1, 2, 443, 6, (3, 5, 1, 2))%N.
@@ -116,3 +143,11 @@ Proof. split; vm_compute; lia. Qed.
 Example c11_model_run_example :
   ends (run_model cap_fixed 2 true 6%N ex_days [4; 4; 1]%N) = true.
 Proof. vm_compute; reflexivity. Qed.
+
+Example c11_keepalive_example :
+  length (create_worker_jobs (repeat [ex_flow1] 33)) = 2
+  /\ c_P (wq_cfg 1 false 30%N (repeat [ex_flow1] 33)) = 1
+  /\ 2 <= c_cap (wq_cfg 1 false 30%N (repeat [ex_flow1] 33))
+  /\ 1 <= c_mcap (wq_cfg 1 false 30%N (repeat [ex_flow1] 33))
+  /\ k_nest (wqk_cfg 3 true 30%N ex_days 1) = 1.
+Proof. repeat split; vm_compute; lia. Qed.
